@@ -185,6 +185,41 @@ def check_cubic(run, ti, ncases):
                           dict(nt=nt, h=h, coeffs=c, max_err=float(np.max(err))))
 
 
+def check_axes(run, ti, ncases):
+    """Time axes other than increasing float64 seconds: stored newest first (signed steps: a linear signal is integrated
+    exactly by every stencil and by the trapezoidal fallback), and integer-typed (epoch seconds)."""
+    rng = run.rng
+    for _ in range(ncases):
+        nt = rng.randint(6, 40)
+        h = rng.choice([0.5, 1.0, 2.0])
+        a, b, s0 = rng.randint(-3, 3), rng.randint(-3, 3), rng.choice([0.0, 0.5, -1.25])
+        # (1) decreasing axis, linear signal
+        t = (np.arange(nt) * h)[::-1].copy() + (0.0 if rng.random() < 0.5 else np.cumsum([rng.choice([0.0, 0.3]) for _ in range(nt)])[::-1])
+        x = a + b * t
+        X = a * t + b * t ** 2 / 2
+        run.case("decreasing-axis", key=(nt, h, a, b))
+        out = np.asarray(ti.integrate(t, x, 4, 1, s0), dtype=float)
+        want = s0 + (X - X[0])
+        if out.shape != t.shape or not np.allclose(out, want, rtol=1e-12, atol=1e-9 * (1 + np.max(np.abs(want)))):
+            run.violation("on a time axis stored newest first a linear signal is not integrated exactly (signed steps)",
+                          dict(nt=nt, h=h, a=a, b=b, start=s0, got=out[:5].tolist(), want=want[:5].tolist()))
+        # (2) integer-typed time axis = the same axis as floats
+        ti_int = (np.arange(nt) * int(max(h, 1))).astype("int64") + 1_600_000_000
+        c = [rng.randint(-2, 2) for _ in range(4)]
+        tf = ti_int.astype(float)
+        xs = sum(ck * ((tf - tf[0]) / 10.0) ** k for k, ck in enumerate(c))
+        run.case("integer-time-axis", key=(nt, tuple(c)))
+        try:
+            o_int = np.asarray(ti.integrate(ti_int, xs, 4, 1, s0), dtype=float)
+        except Exception as ex:
+            run.violation("an integer-typed time axis is rejected", dict(error=repr(ex)[:200]))
+            continue
+        o_flt = np.asarray(ti.integrate(tf, xs, 4, 1, s0), dtype=float)
+        if o_int.shape != o_flt.shape or not np.allclose(o_int, o_flt, rtol=1e-12, atol=1e-12):
+            run.violation("the cumulative integral depends on the storage type of the time axis (integer epoch seconds vs float)",
+                          dict(nt=nt, coeffs=c, start=s0, int_axis=o_int[:4].tolist(), float_axis=o_flt[:4].tolist()))
+
+
 def main(prop, tier, seed):
     run = common.Run(prop, tier, seed)
     aud = common.audit(prop, thorough=(tier == "thorough"))
@@ -199,6 +234,8 @@ def main(prop, tier, seed):
             check_integrate(run, drv, ti, 6000 if thorough else 500, 2000 if thorough else 300)
         with common.guard(run, "cubic exactness"):
             check_cubic(run, ti, 2000 if thorough else 200)
+        with common.guard(run, "other time axes"):
+            check_axes(run, ti, 400 if thorough else 40)
     finally:
         drv.close()
     return run.finish(aud, ASSUMPTIONS, RULE)
